@@ -2154,7 +2154,9 @@ def check_implied(context, expr, decls):
         expr  - implied attribute value
         decls - list of Declarations
     """
-    node = declast.ExprParser(expr).expression()
+    parser = declast.ExprParser(expr)
+    node = parser.expression()
+    parser.mustbe("EOF")  # nothing may follow the expression
     visitor = CheckImplied(context, expr, decls)
     return visitor.visit(node)
 
